@@ -6,13 +6,11 @@ CONSTANTS
   Limits = {0}
   DefIds = {1}
   OmitVals = {FALSE}
-  Modes = {"fresh", "lctx", "gen", "proc"}
+  Modes = {"fresh", "lctx", "gen"}
   ResetLimiter = TRUE
   IdentityDepKey = TRUE
   VolatileUniq = TRUE
   FreshModule = FALSE
 VIEW View
-INVARIANT SibDigest
-INVARIANT LimitRespected
-INVARIANT OwnLineKept
+INVARIANT EmitBad
 CHECK_DEADLOCK FALSE
